@@ -111,7 +111,8 @@ func mkTextConf(r *Rand, infix bool) textConf {
 }
 
 // a random literal-rich tree for the text layer (strings with spaces, brackets, semicolons, backslashes, line breaks, non-ASCII)
-var strLits = []string{"", "a", "a b", "x(y", "p)q", "s;t", `b\n`, "line\nbreak", "tab\there", "é λ", "[z]", "a,b", "  lead", "trail  ", `C:\tmp\`, "中文", "1 2 3", "(", ";", "\\"}
+var strLits = []string{"", "a", "a b", "x(y", "p)q", "s;t", `b\n`, "line\nbreak", "tab\there", "é λ", "[z]", "a,b", "  lead", "trail  ", `C:\tmp\`, "中文", "1 2 3", "(", ";", "\\",
+	"100% c", "%d %s %v", "50%", "%", "%%", "%!", "{}", "$1", "'q'", "`bt`", "#", "a\rb", "\x00z", "~", "&amp;", "<nil>", "true", "-5", "+", "!x"}
 
 func textTree(r *Rand, d int) *GT {
 	if d <= 0 || r.Intn(4) == 0 {
@@ -307,6 +308,20 @@ func genText(c *RunCtx, prop string) []*Batch {
 				g2, _ := safeParseGT(tcP.conf, s2)
 				if base != nil && (g2 == nil || !treeEqual(base, g2)) {
 					c.Direct = append(c.Direct, DirectViolation{What: "re-laying out the same tokens changes the parsed tree", Sig: "c14-relayout-tree", Sample: map[string]interface{}{"source": src, "relayout": s2}})
+				}
+			}
+			// a `;;;;` comment after the first token is an ordinary comment: same compiled program, even when malformed
+			if sp := strings.Index(src, " "); sp > 0 {
+				for _, cm := range []string{";;;; optimize: false", ";;;; reordering:false, constant_folding : false", ";;;; reviewed by nobody", ";;;;"} {
+					mid := src[:sp] + " " + cm + "\n" + src[sp:]
+					trail := src + " " + cm
+					e0, err0, _ := compileSafe(eval.CopyConfig(tcP.conf), src)
+					for _, s1 := range []string{mid, trail} {
+						e1, err1, pan1 := compileSafe(eval.CopyConfig(tcP.conf), s1)
+						if pan1 != nil || (err0 == nil) != (err1 == nil) || (err0 == nil && eval.Dump(e0) != eval.Dump(e1)) {
+							c.Direct = append(c.Direct, DirectViolation{What: fmt.Sprintf("a ;;;; comment after the first token changes the compilation (%v / %v)", err0, err1), Sig: "c14-late-directive", Sample: map[string]interface{}{"source": src, "with_comment": s1}})
+						}
+					}
 				}
 			}
 			// the formatter, once and twice, also on a source with comments
